@@ -4,9 +4,14 @@
    every template and every equal / complementary link of the seeded graph (C15_over_iff_unsat),
    and otherwise returns arrays (C15_seeded_total); in particular a node forced complementary
    to itself, or a class with no common base, is always reported (C15_failure_reason), and a
-   satisfiable graph is never rejected for this reason. *)
+   satisfiable graph is never rejected for this reason.
+   At the level of the document (strand layout, C15_over_iff_document_unsat): over-constraint is
+   reported exactly when no assignment of bases to the nucleotides of the declared sequences
+   respects their templates, the equal statements and the base pairs of the target structures
+   (doc_sat), under the per-case booleans same_graph / spec_okb / dgraph_ok. *)
 From Coq Require Import List String Ascii Arith.
-From PC Require Import Base.Codes Comp.Syntax Comp.Compile Design.Propagate Design.PropagateProofs Design.Designer Design.DesignerProofs Design.TemplateProofs.
+From PC Require Import Base.Codes Comp.Syntax Comp.Compile Design.Propagate Design.PropagateProofs Design.Designer Design.DesignerProofs Design.TemplateProofs
+  Design.Contraction Design.DGraph Design.DenoteGraph Design.DenoteTie Design.DenoteSat.
 Import ListNotations.
 
 Theorem C15_odd_cycle_reported : forall g m,
@@ -52,3 +57,17 @@ Theorem C15_success_gives_assignment : forall g m, graph_closed g = true ->
   ((exists st' b, templates m (g_keys g) st0 [] = (Some st', b)) <-> exists a, sat g st0 a).
 Proof. exact templates_succeed_iff_sat. Qed.
 Print Assumptions C15_success_gives_assignment.
+
+(* document-level statement: satisfiability of the seeded graph is satisfiability of the document *)
+Theorem C15_gsat_iff_doc_sat : forall (p : pspec) (lay : layout) (g : cgraph),
+  spec_okb p = true -> dgraph_ok p lay = true -> same_graph p lay g = true -> graph_ok g = true ->
+  ((exists a, gsat g a) <-> doc_sat p).
+Proof. exact gsat_iff_doc_sat. Qed.
+Print Assumptions C15_gsat_iff_doc_sat.
+
+Theorem C15_over_iff_document_unsat : forall (p : pspec) (lay : layout) (g : cgraph),
+  seed p false = OK (lay, g) -> graph_ok g = true ->
+  spec_okb p = true -> dgraph_ok p lay = true -> same_graph p lay g = true ->
+  (get_constraints p false = DOver <-> ~ doc_sat p).
+Proof. exact over_iff_document_unsat. Qed.
+Print Assumptions C15_over_iff_document_unsat.
